@@ -21,14 +21,16 @@ def regen_slots():
 _shared = {}
 def _objects(c):
     """one set of option objects per case, shared by all calls made for that case (a session reusing its settings)"""
-    key = id(c)
-    if key not in _shared:
-        _shared.clear()
+    key = 'case'
+    if _shared.get('owner') is not c:      # (identity of the case dict itself: id() values are reused after garbage collection)
+        _shared.clear(); _shared['owner'] = c
         fek = implutil.fe_kwargs(c['fk'], c['boundary'], c['pad'])
         bk = dict(c['bk']) if c['bk'] is not None else None
         if bk and 'amp_threshes' in bk:
             bk['amp_threshes'] = tuple(bk['amp_threshes'])
         th = dict(c['th']) if c['th'] is not None else None
+        if c.get('npopt'):       # option values as numpy scalars instead of python numbers
+            fek, th = implutil.np_scalars(fek), implutil.np_scalars(th)
         import copy
         _shared[key] = (fek, bk, th, copy.deepcopy((fek, bk, th)))
     return _shared[key]
@@ -36,14 +38,16 @@ def _objects(c):
 def _call(c, return_samples=True, via_object=False):
     from bycycle.features import compute_features
     from bycycle import Bycycle
-    sig = proto.hex2arr(c['sig'])
+    sig = implutil.present(proto.hex2arr(c['sig']), c.get('pres'))
+    fs = np.float64(c['fs']) if c.get('npopt') else c['fs']
     fek, bk, th, _ = _objects(c)
     if via_object:
-        bm = Bycycle(center_extrema=c['center'], burst_method=c['method'], burst_kwargs=bk, thresholds=th,
-                     find_extrema_kwargs=fek, return_samples=return_samples)
-        implutil.quiet(bm.fit, sig, c['fs'], tuple(c['f_range']))
-        return bm.df_features
-    return implutil.quiet(compute_features, sig, c['fs'], tuple(c['f_range']), center_extrema=c['center'], burst_method=c['method'],
+        # (Bycycle.fit documents a 1d array: it reads sig.ndim.) The object has a HISTORY: other settings, a first fit on the same array
+        return implutil.object_route(np.asarray(sig), fs, tuple(c['f_range']), c['center'], c['method'], bk, th, fek, return_samples)
+    if c.get('reuse') and isinstance(sig, np.ndarray) and sig.flags.writeable:
+        return implutil.reuse_buffer(lambda b: implutil.quiet(compute_features, b, fs, tuple(c['f_range']), center_extrema=c['center'], burst_method=c['method'],
+                                                               burst_kwargs=bk, threshold_kwargs=th, find_extrema_kwargs=fek, return_samples=return_samples), sig)
+    return implutil.quiet(compute_features, sig, fs, (tuple(c['f_range']) if not c.get('npopt') else [np.float64(v) for v in c['f_range']]), center_extrema=c['center'], burst_method=c['method'],
                           burst_kwargs=bk, threshold_kwargs=th, find_extrema_kwargs=fek, return_samples=return_samples)
 
 def corpus(ctx):
@@ -59,6 +63,9 @@ def generate(ctx):
     cases = []
     for i in range(ctx.scale(220, 2200)):
         s = gen.make_signal(ctx.sub_rng(i), family=gen.FAMILIES[i % len(gen.FAMILIES)])
+        if i % 9 == 4:      # a SHORT recording: barely longer than the filters, so that the table has zero to three cycles
+            fs_, f0_ = int(rng.choice([100, 128, 250])), float(rng.choice([8, 10]))
+            s = gen.make_signal(ctx.sub_rng(i), family=str(rng.choice(['sine', 'asym', 'sum', 'noise'])), fs=fs_, f0=f0_, n=int((4.4 + 3.5 * rng.random()) * fs_ / f0_))
         u = rng.random()
         fk = None if u < 0.35 else ({'n_cycles': int(rng.choice([2, 3, 4, 5]))} if u < 0.75 else {'n_seconds': float(rng.choice([0.25, 0.5, 0.75]))})
         method = str(rng.choice(['cycles', 'amp']))
@@ -67,14 +74,20 @@ def generate(ctx):
             th = ({'amp_fraction_threshold': float(rng.choice([0, 0.2])), 'amp_consistency_threshold': float(rng.choice([0, 0.4, 0.6])),
                    'period_consistency_threshold': float(rng.choice([0.3, 0.6])), 'monotonicity_threshold': float(rng.choice([0.5, 0.8])),
                    'min_n_cycles': int(rng.choice([0, 2, 3]))} if method == 'cycles'
-                  else {'burst_fraction_threshold': float(rng.choice([0.5, 1.0])), 'min_n_cycles': int(rng.choice([1, 3]))})
+                  else {'burst_fraction_threshold': float(rng.choice([0.25, 0.5, 0.8, 1.0])), 'min_n_cycles': int(rng.choice([1, 3, 6]))})
         bk = None
         if method == 'amp' and rng.random() < 0.6:
-            bk = {'amp_threshes': [float(x) for x in rng.choice([[1, 2], [0.5, 1.5]])]}
+            bk = {'amp_threshes': [float(x) for x in rng.choice([[1, 2], [0.5, 1.5], [1, 1], [0.8, 1.2], [0, 1], [0.25, 3]])]}     # (so that short runs of bursting cycles occur and are cleared)
+        if method == 'amp' and s['family'] in ('blips', 'bursty') and rng.random() < 0.75:
+            # strong stretches barely long enough for the detector that cover fewer WHOLE cycles than min_n_cycles: the run rule of the
+            # labelling has to clear them
+            th = {'burst_fraction_threshold': 1.0, 'min_n_cycles': 3}
+            bk = None if rng.random() < 0.5 else {'min_burst_duration': float(rng.choice([0.1, 0.2]))}
         cases.append(dict(kind='signal', sig=proto.arr2hex(s['sig']), fs=s['fs'], f_range=list(s['f_range']), fk=fk,
                           boundary=(None if rng.random() < 0.4 else int(rng.choice([0, 1, 5, 25, 60]))),
                           pad=(None if rng.random() < 0.7 else bool(rng.integers(2))),
-                          center=str(rng.choice(['peak', 'trough'])), method=method, bk=bk, th=th, family=s['family']))
+                          center=str(rng.choice(['peak', 'trough'])), method=method, bk=bk, th=th, family=s['family'],
+                          pres=implutil.pick_presentation(rng), npopt=bool(rng.random() < 0.25), reuse=bool(rng.random() < 0.25)))
     return cases
 
 def evaluate(ctx, cases):
@@ -113,7 +126,7 @@ def evaluate(ctx, cases):
             except Exception as e:
                 r['second_call_error'] = type(e).__name__ + ': ' + str(e)[:100]
         except Exception as e:
-            r['err'] = type(e).__name__; r['msg'] = str(e)[:200]
+            r['err'] = type(e).__name__; r['msg'] = str(e)[:200]; r['kernel'] = implutil.raised_in_kernel(e)
         impl.append(r)
     wf_reqs, idx = [], []
     for i, (c, p, r) in enumerate(zip(cases, pre, impl)):
@@ -130,11 +143,18 @@ def evaluate(ctx, cases):
         info = dict(model=(model if model[0] == 'err' else ['ok', len(model[1])]), spec_peaks=(len(spec[1][0]) if isinstance(spec, list) and spec[0] == 'ok' else spec))
         judge_ok, corr_ok, tie = True, True, False
         must_return = isinstance(spec, list) and spec[0] == 'ok' and len(spec[1][0]) >= 2
+        if 'err' in r and (r.get('kernel') or ('designed filter' in r.get('msg', '') and 'longer than the signal' in r.get('msg', ''))):
+            # raised INSIDE neurodsp: a LATER filter of the pipeline (band amplitude, dual threshold) does not fit the recording although
+            # the extrema filter did, or the dual-threshold detector's own TypeError for a lower threshold of 0: kernel-refused
+            ctx.hist('outcome', 'kernel-refused (raised inside neurodsp: %s)' % r['err'])
+            out.append(Result(c, sig=key, nontrivial=False, info=dict(note='band filter kernel refused input'))); continue
         if 'err' in r:
             info['impl'] = r
             if must_return:
                 judge_ok = False; info['why'] = 'raised although the specification keeps %d peaks' % len(spec[1][0])
-            corr_ok = (model[0] == 'err')
+            # (a table with NO row makes the shape stage raise IndexError on its first row: compute_band_amp reads troughs[0];
+            # the cyclepoint model, which stops before that stage, returns the empty table)
+            corr_ok = (model[0] == 'err') or (model[0] == 'ok' and len(model[1]) == 0 and r['err'] == 'IndexError')
             ctx.hist('outcome', 'raises:' + r['err'])
         else:
             rows = [[str(v) for v in row] for row in r['rows']]
@@ -152,6 +172,6 @@ def evaluate(ctx, cases):
                 pk = [row[0] for row in r['rows']]; tr = [row[4] for row in r['rows']] + ([r['rows'][-1][5]] if r['rows'] else [])
                 tie = float_tie(p[0], pk, tr)
             ctx.hist('outcome', 'table')
-        ctx.hist('options', '%s/%s/%s' % (c['center'], c['method'], 'n_seconds' if c['fk'] and 'n_seconds' in c['fk'] else 'n_cycles'))
+        ctx.hist('options', '%s/%s/%s' % (c['center'], c['method'], 'n_seconds' if c['fk'] and 'n_seconds' in c['fk'] else 'n_cycles')); ctx.hist('presentation', (c.get('pres') or 'array') + ('+numpy scalar options' if c.get('npopt') else ''))
         out.append(Result(c, judge_ok=judge_ok, corr_ok=corr_ok, sig=key, nontrivial=('rows' in r and r['n'] >= 2), float_tie=tie, info=info))
     return out
